@@ -59,6 +59,8 @@ type Ctx struct {
 	maxFails int
 	worker   string
 	outDir   string
+	deadline time.Time // parent process: no new worker is started after this
+	late     map[string]bool
 }
 
 func (c *Ctx) Thorough() bool { return c.Tier == "thorough" }
@@ -159,6 +161,11 @@ func (c *Ctx) RunCases(group string, n int, run func(c *Ctx, k int, rng *rand.Ra
 		jobs = append(jobs, &job{from: from, to: to, dir: filepath.Join(c.outDir, "w", fmt.Sprintf("%s-%d", group, from))})
 	}
 	spawn := func(j *job) {
+		if time.Now().After(c.deadline) {
+			j.err = fmt.Errorf("not started: time budget of the run used up")
+			j.stderr = j.err.Error()
+			return
+		}
 		os.MkdirAll(j.dir, 0o755)
 		limit := 20*time.Second + time.Duration(j.to-j.from)*time.Second
 		cctx, cancel := context.WithTimeout(context.Background(), limit)
@@ -217,31 +224,63 @@ func (c *Ctx) RunCases(group string, n int, run func(c *Ctx, k int, rng *rand.Ra
 			c.impl.Write(ib)
 		}
 	}
+	dead := 0
 	for _, j := range jobs {
 		if j.err == nil {
 			merge(j.dir)
 			continue
 		}
-		// the worker died: find the case(s)
+		if time.Now().After(c.deadline) {
+			if !c.late[group] {
+				c.late[group] = true
+				c.Oracle(group+"/time-budget", fmt.Sprintf("cases %d.. of group %s", j.from, group), "the time budget of the run was used up before these cases finished (workers dying or timing out)", "the run finishes in time", false, "")
+			}
+			continue
+		}
+		if dead >= 8 {
+			// enough witnesses: the rest of the group is not re-run case by case
+			c.Oracle(group+"/fatal", fmt.Sprintf("cases %d..%d of group %s", j.from, j.to-1, group), "the worker died; not re-run case by case after 8 fatal cases", "returns", false, "")
+			continue
+		}
+		// the worker died: find the case(s), several at a time
+		ones := make([]*job, 0, j.to-j.from)
 		for k := j.from; k < j.to; k++ {
-			one := &job{from: k, to: k + 1, dir: filepath.Join(c.outDir, "w", fmt.Sprintf("%s-one-%d", group, k))}
-			spawn(one)
-			if one.err == nil {
-				merge(one.dir)
-				continue
+			ones = append(ones, &job{from: k, to: k + 1, dir: filepath.Join(c.outDir, "w", fmt.Sprintf("%s-one-%d", group, k))})
+		}
+		for lo := 0; lo < len(ones) && dead < 8 && !time.Now().After(c.deadline); lo += 8 {
+			hi := lo + 8
+			if hi > len(ones) {
+				hi = len(ones)
 			}
-			first := one.stderr
-			if i := strings.Index(first, "\n\n"); i > 0 {
-				first = first[:i]
+			var wg1 sync.WaitGroup
+			for _, one := range ones[lo:hi] {
+				wg1.Add(1)
+				go func(one *job) { defer wg1.Done(); spawn(one) }(one)
 			}
-			if len(first) > 300 {
-				first = first[:300]
+			wg1.Wait()
+			for _, one := range ones[lo:hi] {
+				k := one.from
+				if one.err == nil {
+					merge(one.dir)
+					continue
+				}
+				dead++
+				first := one.stderr
+				if i := strings.Index(first, "\n\n"); i > 0 {
+					first = first[:i]
+				}
+				if len(first) > 300 {
+					first = first[:300]
+				}
+				cls := ""
+				if classOf != nil {
+					cls = classOf(k, caseRng(c.Seed, group, k))
+				}
+				if cls != "" {
+					dead-- // a known finding is not a reason to stop looking
+				}
+				c.Oracle(group+"/fatal", desc(k, caseRng(c.Seed, group, k)), "the process died: "+first, "returns", false, cls)
 			}
-			cls := ""
-			if classOf != nil {
-				cls = classOf(k, caseRng(c.Seed, group, k))
-			}
-			c.Oracle(group+"/fatal", desc(k, caseRng(c.Seed, group, k)), "the process died: "+first, "returns", false, cls)
 		}
 	}
 	os.RemoveAll(filepath.Join(c.outDir, "w"))
@@ -294,6 +333,12 @@ func main() {
 		syscall.Setrlimit(syscall.RLIMIT_AS, &lim)
 	}
 	t0 := time.Now()
+	budget := 1500
+	if c.Thorough() {
+		budget = 6 * 3600
+	}
+	c.deadline = t0.Add(time.Duration(envInt("VERIF_BUDGET_S", budget)) * time.Second)
+	c.late = map[string]bool{}
 	f(c)
 	c.ops.Flush()
 	c.impl.Flush()
